@@ -1,0 +1,15 @@
+//go:build verif
+
+package synchronization
+
+// Contracts for the executability-propagation guard of the synchronization
+// cycle (property C18). Comment-only file: compiled only under the "verif"
+// build tag, contains no code. The "//@" lines are read by /verif/govc.
+
+// Executability is propagated only in the portable permissions mode, only
+// when exactly one endpoint's snapshot preserves executability, and then from
+// the preserving side's content (source) to the non-preserving side's content
+// (target), with the session's ancestor as the last-synchronized state.
+//@ func (*controller).synchronize
+//@   at call core.PropagateExecutability assert[onesided] permissionsMode == core.PermissionsMode_PermissionsModePortable && (αSnapshot.PreservesExecutability != βSnapshot.PreservesExecutability)
+//@   at call core.PropagateExecutability assert[direction] arg0 == ancestor && ((αSnapshot.PreservesExecutability && !βSnapshot.PreservesExecutability && arg1 == αContent && arg2 == βContent) || (βSnapshot.PreservesExecutability && !αSnapshot.PreservesExecutability && arg1 == βContent && arg2 == αContent))
